@@ -6,7 +6,10 @@ exact pruning; persisted = stable view).  TLC checks it on every reachable state
 configurations and dumps the state graphs; every edge is replayed on the REAL ChainDatabase
 (SetBlock / GetActDatabase(h).Put / .Get / SetStableBlock / Close+reopen) and, after EVERY step, the complete
 observable state (every view x every address, unconfirmed set, ancestors, existence, persisted accounts)
-is logged and validated by TraceForkView.tla.  Seeded random histories of a bigger universe (8 prefix-sharing
+is logged and validated by TraceForkView.tla.  A block is identified by its HASH only: the block universe contains
+TWINS - different blocks that agree in height, parent hash, miner, time, roots, gas, ... and differ in one content field
+(each of the nine hashed header fields in turn) - as children of the stable block and deeper, with and without
+descendants; block ids in all observations are translated from the hashes the real store reports.  Seeded random histories of a bigger universe (8 prefix-sharing
 addresses, up to 7 live blocks, 60 operations) are recorded and validated by the same trace spec."""
 import concurrent.futures, json, os, threading
 LEVEL = "model_checking"
@@ -17,11 +20,16 @@ MANIFEST = dict(
          "ancestor-or-self write else the persisted value, forks never see each other's writes, stabilisation keeps exactly the "
          "descendants with unchanged views, persisted data = stable view) on every reachable state of small configurations "
          "(<=4 blocks incl. equal-height siblings, <=5 prefix-sharing addresses, <=2 writes per block, reads interleaved, <=2 "
-         "stabilisations, restart) and, as negative control, that the clause fails when a block may be written after it got "
-         "children. Every transition of those state graphs is replayed on the real store.ChainDatabase; after every step all "
+         "stabilisations, restart; every block carries a slot attribute = miner/time/roots/gas of its header, blocks of one slot under "
+         "one parent are twins that differ only in one content field and therefore in their hash - the spec never reads the "
+         "attribute: a block is its hash) and, as negative controls, that the clause fails when a block may be written after it got "
+         "children and that exact pruning fails when the stabilisation walk recognises a block by its header attributes instead of "
+         "its hash. Every transition of those state graphs is replayed on the real store.ChainDatabase; after every step all "
          "(block, address) views, the unconfirmed set, ancestor links, block existence and the persisted accounts are read from "
-         "the real code and validated by TLC against the spec (TraceForkView.tla). Seeded random histories (8 addresses sharing "
-         "prefixes of 0/1/2/20/39 nibbles, <=7 live blocks, 60 steps) are validated the same way.",
+         "the real code and validated by TLC against the spec (TraceForkView.tla); the trace spec also checks that the real headers "
+         "of same-slot blocks agree in every hashed field except parent, height and the content field. Seeded random histories (8 "
+         "addresses sharing prefixes of 0/1/2/20/39 nibbles, <=7 live blocks, 60 steps, 1-3 slots, content field drawn per history) "
+         "are validated the same way.",
     note="Every behaviour starts from a database that holds persisted accounts but an EMPTY in-memory trie (the state after a "
          "node start) - otherwise AccountTrieDB.Get never takes its read-through-cache path. Between behaviours the open database "
          "is reused (a fresh stable block + emptied LastConfirm trie, fresh addresses); the Restart action and the thorough tier's "
@@ -128,8 +136,10 @@ def run(ctx):
             dot = ctx.path("fv.%s.dot" % cfg[:-4])
             r = ctx.tlc_exhaustive("MCForkView", cfg, timeout=900, dump=dot, coverage=not ctx.quick())
             if not ctx.quick() and r.get("zero_cov"):
-                bad = [a for a in r["zero_cov"] if a in ("AddBlock", "Put", "Get", "SetStable", "Restart")]
-                if bad and not (bad == ["Restart"] and "MaxRestart = 0" in open(os.path.join(ctx.specdir, cfg)).read()):
+                txt = open(os.path.join(ctx.specdir, cfg)).read()
+                off = [a for a, k in (("Restart", "MaxRestart = 0"), ("Get", "MaxReads = 0")) if k in txt]   # switched off by the bounds
+                bad = [a for a in r["zero_cov"] if a in ("AddBlock", "Put", "Get", "SetStable", "Restart") and a not in off]
+                if bad:
                     raise vlib.Broken("vacuity: actions never taken in %s: %s" % (cfg, bad))
             dots[cfg] = dot
         name = "g%d.%s.%s%s" % (gi, cfg[11:-4], adapter, ".hard" if hard else "")
@@ -142,19 +152,21 @@ def run(ctx):
     ctx.cov["exhaustive"] = True
 
     # ---- seeded random histories on the real database (bigger universe than TLC enumerates)
-    #           table  naddr maxlive steps maxwrites histories-per-shard shards via-account.Manager
-    plans = [("wide", 8, 4, 60, 4, 450, 8, False), ("wide", 5, 3, 40, 3, 450, 8, False), ("wide", 8, 4, 40, 3, 350, 4, True)] if ctx.quick() else \
-            [("wide", 8, 4, 60, 4, 600, 16, False), ("wide", 5, 3, 40, 3, 600, 16, False), ("deep", 8, 7, 60, 4, 400, 16, False),
-             ("deep", 5, 2, 30, 3, 400, 16, False), ("wide", 8, 7, 80, 2, 200, 16, False),
-             ("wide", 8, 4, 40, 3, 400, 16, True), ("deep", 6, 6, 60, 4, 250, 16, True)]
+    #           table  naddr maxlive steps maxwrites histories-per-shard shards via-account.Manager slots
+    # (blocks of one slot have the same miner, time, roots, gas, ...: under one parent they are twins that differ only in the
+    #  content field the history picked; slots = 1: every block of the history is such a twin of its siblings)
+    plans = [("wide", 8, 4, 60, 4, 450, 8, False, 2), ("wide", 5, 3, 40, 3, 450, 8, False, 1), ("wide", 8, 4, 40, 3, 350, 4, True, 2)] if ctx.quick() else \
+            [("wide", 8, 4, 60, 4, 600, 16, False, 2), ("wide", 5, 3, 40, 3, 600, 16, False, 1), ("deep", 8, 7, 60, 4, 400, 16, False, 3),
+             ("deep", 5, 2, 30, 3, 400, 16, False, 1), ("wide", 8, 7, 80, 2, 200, 16, False, 2),
+             ("wide", 8, 4, 40, 3, 400, 16, True, 2), ("deep", 6, 6, 60, 4, 250, 16, True, 1)]
     jobs = [(pi, sh) for pi in range(len(plans)) for sh in range(plans[pi][6])]
 
     def drive(job):
         pi, sh = job
-        table, naddr, maxlive, steps, maxw, n, _, am = plans[pi]
+        table, naddr, maxlive, steps, maxw, n, _, am, slots = plans[pi]
         out = ctx.path("traces", "rand.%d.%d.ndjson" % (pi, sh))
         rr = ctx.drive("forkview-rand", ["-out", out, "-seed", ctx.seed * 1000 + pi * 100 + sh, "-n", n, "-steps", steps,
-                                         "-naddr", naddr, "-maxlive", maxlive, "-maxwrites", maxw, "-table", table, "-restart", 1] + (["-am"] if am else []),
+                                         "-naddr", naddr, "-maxlive", maxlive, "-maxwrites", maxw, "-table", table, "-restart", 1, "-slots", slots] + (["-am"] if am else []),
                        timeout=1500, env={"VERIF_SCRATCH_DIR": ctx.path("work", "rand.%d.%d" % (pi, sh), ".keep")[:-6]})
         return out, json.loads(rr.stdout.strip().splitlines()[-1])
     with concurrent.futures.ThreadPoolExecutor(16) as ex:
@@ -169,7 +181,7 @@ def run(ctx):
     ctx.extra["distinct_transitions_replayed"] = sum(sm["graph_edges"] for _, files, sm in replays if not bad.intersection(files))
     ctx.extra["real_events_validated"] = _lines([f for f in allfiles if f not in bad])
     ctx.extra["random_histories"] = hist
-    ctx.extra["random_history_plans"] = [dict(zip(("table", "naddr", "maxlive", "steps", "maxwrites", "per_shard", "shards", "via_account_manager"), p)) for p in plans]
+    ctx.extra["random_history_plans"] = [dict(zip(("table", "naddr", "maxlive", "steps", "maxwrites", "per_shard", "shards", "via_account_manager", "slots"), p)) for p in plans]
     with open(rfiles[0]) as fh:
         first = [json.loads(next(fh)) for _ in range(12)]
     samples.append(["%s%s" % (e["ev"], e.get("a", "")) for e in first])
@@ -183,4 +195,7 @@ def run(ctx):
         "thorough tier really close and reopen the database",
         "the database is closed only after the store's asynchronous writer has drained (shutdown/crash is C08's subject)",
         "views are observed with a non-mutating probe (PatriciaTrie.Find, else GetAccount); Get actions use the real, cache-populating AccountTrieDB.Get",
+        "block headers are synthetic: miner and time are a function of the block's slot, the other hashed fields are constants, the content "
+        "field of the behaviour (one of miner, versionRoot, txRoot, logRoot, gasLimit, gasUsed, time, deputyRoot, extra) is unique per block; "
+        "in account.Manager mode the version root is the Manager's (twins with equal write sets differ in the content field only)",
         "candidate trie / vote top of CBlock are not part of this property"]
